@@ -74,11 +74,11 @@ Variable D : decoders.
 Lemma CD_negotiate_hold_time h w : CD w -> CD (negotiate_hold_time h w).
 Proof.
   intros H. unfold negotiate_hold_time. cbv zeta.
-  apply (CD_frame (if negb (w_hold (set_w_hold (N.min (w_hold w) h) w) =? 0) && (w_hold (set_w_hold (N.min (w_hold w) h) w) <? 3)
+  apply (CD_frame (if hold_refused h (w_hold (set_w_hold (N.min (w_hold w) h) w))
                    then F_open_message_error c_ERR_MSG_OPEN_UNACCPT_HOLD_TIME [] (set_w_hold (N.min (w_hold w) h) w)
                    else set_w_hold (N.min (w_hold w) h) w)); try reflexivity.
   assert (H0 : CD (set_w_hold (N.min (w_hold w) h) w)) by (revert H; apply CD_frame; reflexivity).
-  destruct (_ && _); auto. apply (pres_open_message_error CD CD_prims); auto.
+  destruct (hold_refused _ _); auto. apply (pres_open_message_error CD CD_prims); auto.
 Qed.
 
 Lemma CD_dispatch c ty msg w : CD w -> CD (snd (dispatch D c ty msg w)).
